@@ -210,6 +210,63 @@ def lemire_cases(q, precision):
     return out
 
 
+def round_bits(v, p, emin_ulp, emax_e):
+    """correctly rounded (m, e) of the positive Fraction v (no overflow handling needed here)"""
+    n, d = v.numerator, v.denominator
+    e = n.bit_length() - d.bit_length()
+    if Fraction(2) ** e > v:
+        e -= 1
+    ulp_e = max(e - (p - 1), emin_ulp)
+    x = v / Fraction(2) ** ulp_e
+    m = x.numerator // x.denominator
+    r = x - m
+    if r > Fraction(1, 2) or (r == Fraction(1, 2) and m % 2 == 1):
+        m += 1
+    return (m, ulp_e)
+
+
+def gap_cases():
+    """GAPS: integers D = A*2^k + B (limbs [B, 0, .., 0, A]: a run of zero limbs inside the big integer) with a
+    decimal exponent >= 135 (so the big-integer path multiplies by the multi-limb 5^135 with long multiplication),
+    chosen so that the 19-digit truncation w and w+1 round to different doubles: the moderate stage must decline."""
+    out = []
+    p, emin_ulp = 53, -1074
+    for e in (135, 136, 160, 200, 270):
+        for k in (64, 128, 192, 256, 320, 384, 448, 512, 576, 640):
+            # D has about (k + 63) * log10(2) digits; D * 10^e must stay finite
+            if int((k + 64) * 0.30103) + 1 + e > 309:
+                continue
+            found = 0
+            P = 5 ** e
+            # midpoints of the binade of 2^(62+k) * 10^e: A ~ (2m+1) * 2^t / 5^e
+            top = (1 << (62 + k)) * P
+            L = top.bit_length()
+            t = L - 54  # (2m+1) has 54 bits
+            for j in range(4000):
+                m2 = (1 << 53) + 1 + 2 * (j * 0x9E3779B1 % (1 << 52))
+                # A * 2^k * 5^e * 2^e ~ m2 * 2^(t+e)  =>  A ~ m2 * 2^(t-k) / 5^e
+                num = m2 << max(t - k, 0)
+                den = P << max(k - t, 0)
+                A = (2 * num + den) // (2 * den)
+                if not ((1 << 60) <= A < (1 << 64)):
+                    continue
+                for B in (1, 0x8000000000000001):
+                    D = (A << k) + B
+                    ds = str(D)
+                    if len(ds) < 20:
+                        continue
+                    w = int(ds[:19])
+                    sc = e + len(ds) - 19
+                    lo = round_bits(Fraction(w) * Fraction(10) ** sc, p, emin_ulp, 971)
+                    hi = round_bits(Fraction(w + 1) * Fraction(10) ** sc, p, emin_ulp, 971)
+                    if lo != hi:
+                        out.append((e, ds))
+                        found += 1
+                if found >= 4:
+                    break
+    return out
+
+
 def main():
     ap = argparse.ArgumentParser()
     ap.add_argument('--table', default=None, help='unused: the table is recomputed from its definition')
@@ -238,6 +295,8 @@ def main():
         for q in qs:
             for w in (1, 9, 10 ** 18, M64 - 1):
                 lines.append(f"{fmt} {q} {w} edge")
+    for e, ds in gap_cases():
+        lines.append(f"str64 {e} {ds} gap")
     text = "\n".join(lines) + "\n"
     if a.out == '-':
         sys.stdout.write(text)
